@@ -105,6 +105,21 @@ func c05Run(r *core.Run) {
 	add("other-crl:intermediate-in-pckcrl", world.DontCare, "the intermediate's serial appears in the PCK CRL", func() { w.PckCrl.Revoked = append(w.PckCrl.Revoked, inter); w.Publish() })
 	// --- CRL signers
 	add("signer:pckcrl-by-foreign-key", rej, "the PCK CRL is not signed by the intermediate CA", func() { pckEP().Body = world.MakeCRL(w.PckCrl, w.CA, fk) })
+	add("signer:pckcrl-by-foreign-key,lookalike-issuer-in-header", rej, "the PCK CRL is signed by a foreign key; the look-alike CA certificate in the (unauthenticated) response header does not make it the chain's intermediate CA", func() {
+		look := world.Issue(w.A.PlatSpec, fk, w.A.Root, fk) // named like the Platform CA, holds the foreign key
+		pckEP().Body = world.MakeCRL(w.PckCrl, w.CA, fk)
+		pckEP().Hdr = map[string][]string{world.HdrPckCrl: {world.IssuerChainHeader(look, w.A.Root)}}
+	})
+	add("signer:pckcrl-by-foreign-key,lookalike-chain-in-header", rej, "the PCK CRL is signed by a foreign key certified only by a look-alike root carried in the response header", func() {
+		lookRoot := world.Issue(w.A.RootSpec, fk, nil, fk)
+		look := world.Issue(w.A.PlatSpec, fk, lookRoot, fk)
+		pckEP().Body = world.MakeCRL(w.PckCrl, w.CA, fk)
+		pckEP().Hdr = map[string][]string{world.HdrPckCrl: {world.IssuerChainHeader(look, lookRoot)}}
+	})
+	add("signer:pckcrl-by-intermediate-key-in-other-name", rej, "the PCK CRL names another issuer than the leaf's issuer", func() { pckEP().Body = world.MakeCRL(w.PckCrl, w.A.Proc, w.CAKey) })
+	add("signer:rootcrl-by-root-key-in-other-name", rej, "the Root CA CRL names another issuer than the chain's root", func() {
+		w.PCS.ByURL[rootURL].Body = world.MakeCRL(w.RootCrl, w.A.Plat, w.A.RootKey)
+	})
 	add("signer:pckcrl-by-root-key", rej, "the PCK CRL is signed by the root key, not by the intermediate CA", func() { pckEP().Body = world.MakeCRL(w.PckCrl, w.CA, w.A.RootKey) })
 	add("signer:pckcrl-of-processor-ca", rej, "the PCK CRL was issued by the other CA", func() { pckEP().Body = world.MakeCRL(w.PckCrl, w.A.Proc, w.A.ProcKey) })
 	add("signer:pckcrl-by-processor-key-in-platform-name", rej, "the PCK CRL is signed by the other CA's key", func() { pckEP().Body = world.MakeCRL(w.PckCrl, w.CA, w.A.ProcKey) })
